@@ -309,3 +309,48 @@ def block_of(st, parent):
         if st in h.body:
             return h.body
     return None
+
+
+def cond_def(fn, name):
+    """A local defined by a two-way choice, written either as `name = B if T else O` or as
+    `if T: name = B` / `else: name = O` (single assignment in each branch).  -> (test, B, O, node) or None"""
+    for n in walk_local(fn, include_self=False):
+        if isinstance(n, ast.Assign) and len(n.targets) == 1 and text(n.targets[0]) == name and isinstance(n.value, ast.IfExp):
+            return n.value.test, n.value.body, n.value.orelse, n
+        if isinstance(n, ast.If) and len(n.body) == 1 and len(n.orelse) == 1 and all(
+                isinstance(b, ast.Assign) and len(b.targets) == 1 and text(b.targets[0]) == name for b in (n.body[0], n.orelse[0])):
+            return n.test, n.body[0].value, n.orelse[0].value, n
+    return None
+
+
+def straightline_paths(body, limit=256):
+    """All paths through a loop-free statement list: [(conditions, stores, ret)] where conditions is a list of (test node, outcome),
+    stores maps the text of every assignment target to the value node assigned last on that path, ret is the Return node that ends the
+    path (None: falls off the end).  Paths ending in `raise` are dropped.  Loops / try / with are treated as opaque single statements."""
+    out = []
+
+    def go(stmts, conds, stores):
+        if len(out) >= limit:
+            return
+        for i, st in enumerate(stmts):
+            if isinstance(st, ast.If):
+                go(st.body + stmts[i + 1:], conds + [(st.test, True)], dict(stores))
+                go(st.orelse + stmts[i + 1:], conds + [(st.test, False)], dict(stores))
+                return
+            if isinstance(st, ast.Return):
+                out.append((conds, stores, st))
+                return
+            if isinstance(st, ast.Raise):
+                return
+            if isinstance(st, ast.Assign):
+                for t in st.targets:
+                    if isinstance(t, (ast.Tuple, ast.List)) and isinstance(st.value, (ast.Tuple, ast.List)) and len(t.elts) == len(st.value.elts):
+                        for tt, vv in zip(t.elts, st.value.elts):
+                            stores[text(tt)] = vv
+                    else:
+                        stores[text(t)] = st.value
+            elif isinstance(st, ast.AugAssign):
+                stores[text(st.target)] = ast.BinOp(left=st.target, op=st.op, right=st.value)
+        out.append((conds, stores, None))
+    go(list(body), [], {})
+    return out
